@@ -77,11 +77,11 @@ checks.update({
    text="model_checking: coherence laws and $ref transparency are invariants of the specified classification over the whole enumerated grammar; the real Schema() must return the specified flags at every schema position of every replayed document (simple flags are left free only on containers of themselves), be coherent and $ref-transparent on its own answers, and terminate (stack overflow / time-out attributed per document).",
    note="Trusted: strfmt registry membership supplied as a relation; schema positions taken from the analyzer (validated by C12); projection; TLC/Json.", ref="7/C20"),
  "C14": dict(
-   technique="TLA+ spec of the query layer as functions of the document (Queries.tla: OpKeys, MediaFor, EffectiveSec/SecReqsFor/SecDefsFor, Required*); answers of all fourteen lookups recorded from the real analyzer for every method spelling x every path (existing or not) and every id (known or not), validated clause by clause by TLC (Trace_Queries)",
+   technique="TLC-enumerated decision tables (MC_Queries) + TLA+ spec of the query layer as functions of the document (Queries.tla: OpKeys, MediaFor, EffectiveSec/SecReqsFor/SecDefsFor, Required*); answers of all fourteen lookups recorded from the real analyzer for every method spelling x every path (existing or not) and every id (known or not), validated clause by clause by TLC (Trace_Queries)",
    text="model_checking (trace validation): on seeded random documents covering any subset of the seven methods, optional/duplicate/missing ids, document- and operation-level consumes/produces/security (incl. explicitly empty security) and on the fixtures, TLC checks that Operations, OperationFor (case-insensitive), OperationForName (unique ids / unknown ids), OperationIDs, OperationMethodPaths, AllPaths, ConsumesFor, ProducesFor, Required*, SecurityRequirementsFor, SecurityDefinitionsFor[Requirements] equal the specified functions of the projected document.",
-   note="Trusted: projection, strings.ToUpper as the case-folding relation, TLC/Json. The decision tables are sampled by the random generator (quick 250 documents x ~30 lookups each), not enumerated exhaustively by TLC.", ref="7/C14"),
+   note="Trusted: projection, strings.ToUpper as the case-folding relation, TLC/Json. The decision tables (media types, security, method pairs/ids) are enumerated exhaustively by MC_Queries with precedence invariants on the specification and every enumerated document is replayed; plus 250 random documents (quick) and the fixtures.", ref="7/C14"),
  "C15": dict(
-   technique="TLA+ spec of effective parameters (Queries.tla: ParamList = path-level then operation-level, FoldParams override under in#GoName, RefKind valid/dangling/not-a-parameter, BadRefs); the four variants queried on the real analyzer with a recording callback under two policies (continue / stop) and the plain variants under recover; TLC validates results, reported errors and panics (Trace_Queries)",
+   technique="TLC-enumerated parameter-list decision table (MC_Queries family params: {inline, same (in,name), valid/dangling/non-parameter $ref}^<=2 at path and operation level, with/without operation, without paths) + TLA+ spec of effective parameters (Queries.tla: ParamList = path-level then operation-level, FoldParams override under in#GoName, RefKind valid/dangling/not-a-parameter, BadRefs); the four variants queried on the real analyzer with a recording callback under two policies (continue / stop) and the plain variants under recover; TLC validates results, reported errors and panics (Trace_Queries)",
    text="model_checking (trace validation): for every method x path (existing or not) and every unique / unknown operation id, TLC checks: Safe variants never panic, never return an unresolved placeholder, report exactly the bad $refs in order (continue policy) or a consistent subset (stop policy: any prefix-closed outcome accepted); plain variants panic iff a bad $ref exists and otherwise return the specified map; missing method/path/id and documents without paths give an empty result.",
    note="Trusted: swag.ToGoName supplied as a relation (names are drawn so that it is injective); projection; TLC/Json. The override key is (location, name) as the statement says; x-go-name is generated but must not matter.", ref="7/C15"),
  "C07": dict(
